@@ -149,15 +149,12 @@ def getDefault (s : Sig) (k : Key) : Option Val :=
     | some p => if p.dflt then some (dfltVal p) else none
     | none => none
   | .idx i =>
-    match s.vpStart with
-    | some vs =>
-      if i < (vs : Int) then
-        -- Python list indexing: a negative `i` wraps around.
-        match Py.getIdx s i with
-        | some p => if p.dflt then some (dfltVal p) else none
-        | none => none
-      else none
-    | none => none
+    -- an index addresses a positional parameter (positional-only or positional-or-keyword)
+    if i < 0 then none
+    else
+      match s[i.toNat]? with
+      | some p => if (p.kind == .po || p.kind == .pk) && p.dflt then some (dfltVal p) else none
+      | none => none
 
 /-- `fill_skipped()` inside `transform_to_args_kwargs`: a positional value may only follow
     skipped slots if each of them has a default, which is then passed explicitly. -/
